@@ -199,7 +199,8 @@ fn run_reader(c: &ReaderCase) -> Outcome {
     };
     for mask in 0..masks {
         let parts = common::composition(n, mask);
-        for consumer in [usize::MAX, 1, 2, 3] {
+        // (0 = reads of 2 octets, each preceded by a read into an empty buffer)
+        for consumer in [usize::MAX, 1, 2, 3, 0] {
             let src = PartsReader {
                 data: &c.s,
                 parts: &parts,
@@ -212,8 +213,13 @@ fn run_reader(c: &ReaderCase) -> Outcome {
             let res = if consumer == usize::MAX {
                 r.read_to_end(&mut got).map(|_| ())
             } else {
-                let mut buf = vec![0u8; consumer];
+                let mut buf = vec![0u8; if consumer == 0 { 2 } else { consumer }];
                 loop {
+                    if consumer == 0 {
+                        if let Err(e) = r.read(&mut []) {
+                            break Err(e);
+                        }
+                    }
                     match r.read(&mut buf) {
                         Ok(0) => break Ok(()),
                         Ok(k) => got.extend_from_slice(&buf[..k]),
@@ -726,7 +732,7 @@ pub fn check(ctx: &Ctx) {
     ctx.run_space(
         "normalized_reader",
         true,
-        &format!("all strings of length <= {lr} x targets {{LF,CRLF,CR}} x all source compositions x consumer sizes {{1,2,3,read_to_end}}"),
+        &format!("all strings of length <= {lr} x targets {{LF,CRLF,CR}} x all source compositions x consumer sizes {{1,2,3,read_to_end, 2 with a read into an empty buffer before every call}}"),
         strings_r
             .par_iter()
             .flat_map_iter(|s| (0..3u8).map(move |eol| ReaderCase { s: s.clone(), eol })),
